@@ -26,7 +26,9 @@ RULE = ('correspondence: header periods from a boundary product (one day / few d
         '0,1,2,3,10,50; thorough up to 500), shuffled, on the header grid / a finer grid / mixed minute '
         'offsets, ~8 % malformed (duplicates, empty, invalid target timesteps); hole patterns leading / '
         'trailing / interior / single / none on full-day periods incl. wrapping ones; refinement for every '
-        'valid (source, target) timestep pair and the four data-type time semantics; a case is non-trivial '
+        'valid (source, target) timestep pair, every data type of ladybug.datatype (all cumulative types incl. '
+        'the point-in-time ones) and cumulative=None/True/False; culling of sparse, dense and continuous '
+        'sources incl. (current, target) timestep pairs where the target does not divide the current one; a case is non-trivial '
         'when the implementation returns a value; distinct = distinct (op, input)')
 TRUSTED_BASE = [
     'hand-written model Model/Resample.lean of datacollection.py validate_analysis_period (4 classes), '
@@ -108,19 +110,44 @@ def _mk_dt(leap, moy):
     return DateTime(mo, da, h, mi, leap)
 
 
+LEGACY_KINDS = {'point': 'Temperature', 'cumulative': 'Energy', 'averaged': 'Power',
+                'point_cumulative': 'Distance'}
+
+
+def _type_of(kind):
+    """Data type class for a kind: one of the four legacy names or any name of ladybug.datatype.TYPESDICT."""
+    from ladybug.datatype import TYPESDICT
+    return TYPESDICT[LEGACY_KINDS.get(kind, kind)]
+
+
+def _kind_flags(kind):
+    """(native cumulative, point in time) of the data type, read from the type itself."""
+    t = _type_of(kind)()
+    return bool(t.cumulative), bool(t.point_in_time)
+
+
+def _all_type_names():
+    """Names of every data type that can be instantiated, sorted; cumulative ones first."""
+    from ladybug.datatype import TYPESDICT
+    names = []
+    for n in sorted(TYPESDICT):
+        try:
+            t = TYPESDICT[n]()
+            t.units[0]
+            names.append((not t.cumulative, n))
+        except Exception:
+            pass
+    return [n for _, n in sorted(names)]
+
+
+def _cumulative_type_names():
+    return [n for n in _all_type_names() if _kind_flags(n)[0]]
+
+
 def _header(ap, kind='point'):
     from ladybug.header import Header
-    from ladybug.datatype.temperature import Temperature
-    from ladybug.datatype.energy import Energy
-    from ladybug.datatype.power import Power
-    from ladybug.datatype.distance import Distance
-    t, u = {'point': (Temperature, 'C'), 'cumulative': (Energy, 'kWh'), 'averaged': (Power, 'W'),
-            'point_cumulative': (Distance, 'm')}[kind]
-    return Header(t(), u, _mk_ap(ap), {'k': 'v'})
-
-
-KIND_FLAGS = {'point': (False, True), 'cumulative': (True, False), 'averaged': (False, False),
-              'point_cumulative': (True, True)}        # (native cumulative, point in time)
+    t = _type_of(kind)()
+    return Header(t, t.units[0], _mk_ap(ap), {'k': 'v'})
 
 
 # ---------------------------------------------------------------------------------------------
@@ -358,6 +385,7 @@ def _gen_holes(ctx, count):
 def _gen_interp(ctx, count):
     rng = ctx.rng
     out = []
+    all_types, cum_types = _all_type_names(), _cumulative_type_names()
     for _ in range(count):
         ap = _gen_period(rng, full_day=True, short=True)
         ap[6] = rng.choice([1, 1, 1, 2, 3, 4, 6, 12])
@@ -373,7 +401,13 @@ def _gen_interp(ctx, count):
             ts, tag = rng.choice([t for t in (7, 8, 9, 16, 24) if t % ap[6] == 0] or [7 * ap[6]]), 'invalid_target'
         elif r < 0.08:
             ts, tag = ap[6] + 1, 'not_multiple'
-        kind = rng.choice(['point', 'cumulative', 'averaged', 'point_cumulative'])
+        r2 = rng.random()
+        if r2 < 0.4:
+            kind = rng.choice(['point', 'cumulative', 'averaged', 'point_cumulative'])
+        elif r2 < 0.8:
+            kind = rng.choice(cum_types)          # every data type with cumulative=True, incl. point-in-time ones
+        else:
+            kind = rng.choice(all_types)
         cum = rng.choice([None, None, True, False])
         scale = rng.choice([1, 60, 3600])
         vals = [rng.randrange(-20, 100) * scale for _ in range(n)]
@@ -383,17 +417,43 @@ def _gen_interp(ctx, count):
     return out
 
 
+NON_DIVISOR_PAIRS = [(cur, tgt) for cur in VALID_TS for tgt in VALID_TS if tgt < cur and cur % tgt != 0]
+
+
 def _gen_cull(ctx, count):
+    """Cull cases.  flavour 'sparse': a discontinuous subset (as for validation); 'dense': a
+    discontinuous collection holding every step of a short whole-day period; 'cont': the same data as
+    a HourlyContinuousCollection.  Dense/continuous sources are biased to (current, target) timestep
+    pairs where the target does not divide the current timestep (6->4, 6->5, 12->5, 3->2 ...)."""
     rng = ctx.rng
     out = []
     for _ in range(count):
-        ap = _gen_period(rng)
-        data = _gen_hourly_data(rng, ap, ctx.n(50, 300))
-        ts = rng.choice(VALID_TS)
+        r = rng.random()
         tag = 'ok'
+        if r < 0.5:
+            ap = _gen_period(rng)
+            data = _gen_hourly_data(rng, ap, ctx.n(50, 300))
+            ts = rng.choice(VALID_TS)
+            flavour = 'sparse'
+        else:
+            ap = _gen_period(rng, full_day=True, short=True)
+            q = rng.random()
+            if q < 0.55:
+                ap[6], ts = rng.choice(NON_DIVISOR_PAIRS)
+            elif q < 0.8:
+                ap[6] = rng.choice([2, 3, 4, 6, 12])
+                ts = rng.choice([t for t in VALID_TS if ap[6] % t == 0])
+            else:
+                ap[6], ts = rng.choice([1, 2, 3, 4]), rng.choice(VALID_TS)     # incl. finer targets
+            if len(_full_day_steps(ap)) > 700:
+                ap[3], ap[4] = ap[0], ap[1]
+            steps = _full_day_steps(ap)
+            data = [[m, i + 1] for i, m in enumerate(steps)]
+            flavour = 'cont' if rng.random() < 0.6 else 'dense'
         if rng.random() < 0.08:
             ts, tag = rng.choice([0, 7, 8, 24, 120]), 'invalid_target'
-        out.append({'ap': ap, 'dl': ap[7], 'data': data, 'ts': ts, 'tag': tag})
+        out.append({'ap': ap, 'dl': ap[7], 'data': data, 'ts': ts, 'tag': tag, 'flavour': flavour,
+                    'pair': 'divisor' if (ts and ap[6] % ts == 0) else 'non_divisor'})
     return out
 
 
@@ -425,10 +485,16 @@ def _impl_keys(cls_name):
     return run
 
 
-def _impl_cull(c):
-    from ladybug.datacollection import HourlyDiscontinuousCollection
-    coll = HourlyDiscontinuousCollection(_header(c['ap']), [v for _, v in c['data']],
+def _cull_source(c):
+    from ladybug.datacollection import HourlyDiscontinuousCollection, HourlyContinuousCollection
+    if c.get('flavour') == 'cont':
+        return HourlyContinuousCollection(_header(c['ap']), [v for _, v in c['data']])
+    return HourlyDiscontinuousCollection(_header(c['ap']), [v for _, v in c['data']],
                                          [_mk_dt(c['dl'], m) for m, _ in c['data']])
+
+
+def _impl_cull(c):
+    coll = _cull_source(c)
     v = coll.cull_to_timestep(c['ts'])
     return 'ok %s %d%s' % (_show_ap(v.header.analysis_period), len(v.values),
                            ''.join(' %d %d' % (d.moy, x) for d, x in zip(v.datetimes, v.values)))
@@ -471,6 +537,8 @@ def _compare_exact(ctx, op, cases, model_line, impl_fn):
         ctx.compared += 1
         ctx.count('op:' + op)
         ctx.count('%s:%s' % (op, c.get('tag', 'ok')))
+        if 'flavour' in c:
+            ctx.count('%s:%s:%s' % (op, c['flavour'], c.get('pair', '')))
         ctx.case((op, line), nontrivial=not io.startswith('err:'))
         if io.startswith('err:'):
             ctx.count('err_results')
@@ -545,7 +613,7 @@ def _correspondence(ctx):
                    lambda c: 'vp %s %d%s' % (_ap_line(c['ap']), len(c['data']),
                                              ''.join(' %d %d %d %d' % (k[0], k[1], k[2], v) for k, v in c['data'])),
                    _impl_keys('MonthlyPerHourCollection'))
-    cases = _gen_cull(ctx, ctx.n(600, 5000))
+    cases = [c for op, c in _corpus() if op == 'cull'] + _gen_cull(ctx, ctx.n(600, 5000))
     _compare_exact(ctx, 'cull', cases,
                    lambda c: 'cull %s %d %d%s' % (_ap_line(c['ap']), c['ts'], len(c['data']),
                                                   _line_items(c['data'])), _impl_cull)
@@ -558,7 +626,7 @@ def _correspondence(ctx):
     _compare_num(ctx, 'interp', cases,
                  lambda c: 'interp %s %d %s %s %s %d%s' % (
                      _ap_line(c['ap']), c['ts'], 'N' if c['cum'] is None else _b(c['cum']),
-                     _b(KIND_FLAGS[c['kind']][0]), _b(KIND_FLAGS[c['kind']][1]), len(c['vals']),
+                     _b(_kind_flags(c['kind'])[0]), _b(_kind_flags(c['kind'])[1]), len(c['vals']),
                      ''.join(' ' + _rat(v) for v in c['vals'])), _impl_interp)
     _corr_factor(ctx, rng)
 
@@ -811,27 +879,36 @@ def _check_holes(inp):
 
 
 def _check_interp(inp):
+    """Time semantics from the statement: data are treated as cumulative when the caller says so
+    (cumulative=True/False) or, by default, when the data type is cumulative – then the total is
+    conserved; otherwise point-in-time types keep their values at the original steps and the other
+    (averaged) types keep their mean."""
     from ladybug.datacollection import HourlyContinuousCollection
     ap, ts, kind, vals = inp['ap'], inp['ts'], inp['kind'], inp['vals']
+    cum = inp.get('cum')
+    native_cum, pit = _kind_flags(kind)
+    as_cum = native_cum if cum is None else bool(cum)
     r = ts // ap[6]
-    sig = {'kind': kind, 'source': 'hourly' if ap[6] == 1 else 'sub', 'header': _header_kind(ap)}
+    sig = {'kind': kind, 'type_cumulative': native_cum, 'type_point_in_time': pit,
+           'cum_arg': 'default' if cum is None else str(bool(cum)),
+           'source': 'hourly' if ap[6] == 1 else 'sub', 'header': _header_kind(ap)}
     coll = HourlyContinuousCollection(_header(ap, kind), [float(v) for v in vals])
     try:
-        new = coll.interpolate_to_timestep(ts)
+        new = coll.interpolate_to_timestep(ts, cum)
     except Exception as e:
         return {'required': 'refined collection', 'observed': '%s: %s' % (type(e).__name__, e), 'sig': dict(sig, fail='raise')}
     out = list(new.values)
     if len(out) != len(vals) * r or new.header.analysis_period.timestep != ts:
         return {'required': '%d values at timestep %d' % (len(vals) * r, ts), 'observed': len(out), 'sig': dict(sig, fail='length')}
-    if kind == 'point':
-        for k, v in enumerate(vals):
-            if out[k * r] != float(v):
-                return {'required': 'new[%d] == old[%d] == %r' % (k * r, k, v), 'observed': out[k * r], 'sig': dict(sig, fail='point')}
-    elif kind == 'cumulative':
+    if as_cum:
         a, b = sum(Fraction(x) for x in out), sum(Fraction(v) for v in vals)
         if abs(a - b) > Fraction(1, 10 ** 9) * max(1, abs(b), sum(abs(Fraction(v)) for v in vals)):
             return {'required': 'total %s' % float(b), 'observed': float(a), 'sig': dict(sig, fail='total')}
-    elif kind == 'averaged':
+    elif pit:
+        for k, v in enumerate(vals):
+            if out[k * r] != float(v):
+                return {'required': 'new[%d] == old[%d] == %r' % (k * r, k, v), 'observed': out[k * r], 'sig': dict(sig, fail='point')}
+    else:
         a, b = sum(Fraction(x) for x in out) / len(out), sum(Fraction(v) for v in vals) / len(vals)
         if abs(a - b) > Fraction(1, 10 ** 9) * max(1, abs(b), max(abs(Fraction(v)) for v in vals)):
             return {'required': 'mean %s' % float(b), 'observed': float(a), 'sig': dict(sig, fail='mean')}
@@ -839,12 +916,12 @@ def _check_interp(inp):
 
 
 def _check_cull(inp):
-    from ladybug.datacollection import HourlyDiscontinuousCollection
     ap, dl, data, ts = inp['ap'], inp['dl'], inp['data'], inp['ts']
-    sig = {'ts': ts}
+    sig = {'ts': ts, 'source_ts': ap[6], 'flavour': inp.get('flavour', 'sparse'),
+           'pair': 'divisor' if ap[6] % ts == 0 else 'non_divisor'}
     want = [(m, x) for m, x in data if m % (60 // ts) == 0]
     for via in ('cull_to_timestep', 'convert_to_culled_timestep'):
-        coll = HourlyDiscontinuousCollection(_header(ap), [v for _, v in data], [_mk_dt(dl, m) for m, _ in data])
+        coll = _cull_source(inp)
         try:
             if via == 'cull_to_timestep':
                 v = coll.cull_to_timestep(ts)
@@ -923,9 +1000,27 @@ def _corpus():
                    'data': [[364 * 1440 + 600, 10], [120, 40]]}),
         ('holes', {'ap': [12, 31, 0, 1, 1, 23, 1, False], 'validated': True, 'tag': 'leading',
                    'data': [[120, 40], [180, 50]]}),
+        # culling a continuous / dense source to a timestep that does not divide the current one
+        ('cull', {'ap': [7, 14, 0, 7, 14, 23, 6, False], 'dl': False, 'ts': 4, 'flavour': 'cont',
+                  'data': [[(194 * 1440) + 10 * k, k + 1] for k in range(144)]}),
+        ('cull', {'ap': [7, 14, 0, 7, 14, 23, 12, False], 'dl': False, 'ts': 5, 'flavour': 'cont',
+                  'data': [[(194 * 1440) + 5 * k, k + 1] for k in range(288)]}),
+        ('cull', {'ap': [7, 14, 0, 7, 14, 23, 3, False], 'dl': False, 'ts': 2, 'flavour': 'dense',
+                  'data': [[(194 * 1440) + 20 * k, k + 1] for k in range(72)]}),
         # refinement of a sub-hourly source (repaired: interpolate_to_timestep_ratio)
         ('interp', {'ap': [1, 1, 0, 1, 1, 23, 2, False], 'ts': 4, 'kind': 'cumulative', 'cum': None,
                     'vals': [60 * k for k in range(48)], 'tag': 'ok'}),
+        # every cumulative data type with the default cumulative=None, incl. those that are also point-in-time
+        ('interp', {'ap': [6, 21, 0, 6, 21, 23, 1, False], 'ts': 4, 'kind': 'LiquidPrecipitationDepth', 'cum': None,
+                    'vals': [60 * (k % 5) for k in range(24)], 'tag': 'ok'}),
+        ('interp', {'ap': [6, 21, 0, 6, 21, 23, 2, False], 'ts': 6, 'kind': 'Volume', 'cum': None,
+                    'vals': [36 * (k % 7) for k in range(48)], 'tag': 'ok'}),
+        ('interp', {'ap': [6, 21, 0, 6, 21, 23, 1, False], 'ts': 2, 'kind': 'Mass', 'cum': None,
+                    'vals': [10 * (k % 3) for k in range(24)], 'tag': 'ok'}),
+        ('interp', {'ap': [6, 21, 0, 6, 21, 23, 1, False], 'ts': 2, 'kind': 'Temperature', 'cum': True,
+                    'vals': [10 * (k % 3) for k in range(24)], 'tag': 'ok'}),
+        ('interp', {'ap': [6, 21, 0, 6, 21, 23, 1, False], 'ts': 2, 'kind': 'Energy', 'cum': False,
+                    'vals': [10 * (k % 3) for k in range(24)], 'tag': 'ok'}),
         ('interp', {'ap': [1, 1, 0, 1, 1, 23, 1, False], 'ts': 3, 'kind': 'averaged', 'cum': None,
                     'vals': [3600 * (k % 7) for k in range(24)], 'tag': 'ok'}),
     ]
@@ -936,14 +1031,14 @@ def _oracle_cases(ctx):
     big = ctx.searching or not ctx.quick
     for op, c in _corpus():
         yield op, c
-    for c in _gen_validate_hourly(ctx, 8000 if big else 1600):
+    for c in _gen_validate_hourly(ctx, 8000 if big else 1300):
         if c['tag'] in ('empty',):
             continue
         if c['tag'] == 'leap_mix':
             continue                       # outside the quantifier (header with the wrong leap flag)
         yield 'validate_hourly', {'ap': c['ap'], 'dl': c['dl'], 'data': c['data']}
     for kind, op in (('daily', 'validate_daily'), ('monthly', 'validate_monthly'), ('mph', 'validate_mph')):
-        for c in _gen_keys(ctx, kind, 3000 if big else 600):
+        for c in _gen_keys(ctx, kind, 3000 if big else 500):
             if c['tag'] in ('empty', 'bad_key'):
                 continue
             if kind == 'daily' and not c['ap'][7] and any(k == 366 for k, _ in c['data']):
@@ -960,14 +1055,22 @@ def _oracle_cases(ctx):
         elif via == 'validate':
             rng.shuffle(data)
         yield 'holes', {'ap': c['ap'], 'data': c['data'] if via == 'flag' else data, 'via': via}
+    # every data type x cumulative=None/True/False on one small day (deterministic sweep)
+    for i, name in enumerate(_all_type_names()):
+        src = [1, 2, 3][i % 3]
+        tgt = {1: [2, 3, 4], 2: [4, 6], 3: [6, 12]}[src][i % 2]
+        nv = 24 * src
+        for cum in (None, True, False):
+            yield 'interp', {'ap': [6, 21, 0, 6, 21, 23, src, False], 'ts': tgt, 'kind': name, 'cum': cum,
+                             'vals': [3600 * ((k * 7 + i) % 11) for k in range(nv)]}
     for c in _gen_interp(ctx, 1500 if big else 350):
         if c['tag'] != 'ok':
             continue
-        yield 'interp', {'ap': c['ap'], 'ts': c['ts'], 'kind': c['kind'], 'vals': c['vals']}
-    for c in _gen_cull(ctx, 3000 if big else 500):
+        yield 'interp', {'ap': c['ap'], 'ts': c['ts'], 'kind': c['kind'], 'cum': c['cum'], 'vals': c['vals']}
+    for c in _gen_cull(ctx, 3000 if big else 400):
         if c['tag'] != 'ok':
             continue
-        yield 'cull', {'ap': c['ap'], 'dl': c['dl'], 'data': c['data'], 'ts': c['ts']}
+        yield 'cull', {'ap': c['ap'], 'dl': c['dl'], 'data': c['data'], 'ts': c['ts'], 'flavour': c['flavour']}
 
 
 def oracle(ctx):
